@@ -68,6 +68,12 @@ class SmoothFn:
         self.w = {}
 
     def __call__(self, *xs):
+        # inside a wrapped `enforce` (harness/disturb.py) the same inputs give the same tensor object back, and the
+        # warm-up call with other data gets other values
+        from .disturb import memo_call
+        return memo_call(('fn', self.name, id(self)), self.raw, xs)
+
+    def raw(self, *xs):
         k = len(xs)
         if k not in self.w:
             r = random.Random(f'{self.name}/{k}')
@@ -127,14 +133,18 @@ class RealWorld:
         if mi is None or not any(mi):
             return base
 
-        def partial(*xs):
+        def partial_raw(*xs):
             xs = [x if x.requires_grad else x.clone().requires_grad_(True) for x in xs]
-            u = base(*xs)
+            u = base.raw(*xs)
             for i, m in enumerate(mi):
                 for _ in range(m):
                     g, = torch.autograd.grad(u, xs[i], torch.ones_like(u), create_graph=True, allow_unused=True)
                     u = g if g is not None else torch.zeros_like(xs[i])
             return u
+
+        def partial(*xs):
+            from .disturb import memo_call
+            return memo_call(('fn', name, id(base), tuple(mi)), partial_raw, xs)
         return partial
 
 
